@@ -10,6 +10,15 @@ import sys
 from .core import REPO
 
 
+def command(name):
+    """The click Command registered under the CLI name `name` (e.g.
+    'subset-table'); looked up through the `biom` command group so that the
+    checks depend on the command-line interface, not on module / function
+    names inside biom.cli."""
+    from biom.cli import cli
+    return cli.commands[name]
+
+
 def invoke(command, name, args, sub=False):
     """Returns (exit_code, stdout_text)."""
     if sub:
